@@ -105,21 +105,22 @@ def rule_a(ctx, R, scan, uniform_arg):
         c = v.classify_bool(b["term"]["discr"])
         if not c:
             continue
-        if c[0] == "call" and callee_is(c[1], trait="PartialOrd", name=("lt", "le", "gt", "ge")):
-            t = c[1]
-            name = t["callee"]["name"]
-            r0, r1 = v.root(t["args"][0]), v.root(t["args"][1])
+        cm = common.cmp_of(v, c)
+        if cm is not None and cm[0] in ("lt", "le", "gt", "ge"):
+            name, la, ra, wh = cm
+            r0, r1 = common.scalar_value_root(v, la), common.scalar_value_root(v, ra)
             te, fe = bool_edges(scan, bi)
             u0 = r0.kind == "arg" and r0.base[1] == uniform_arg and not r0.path
             u1 = r1.kind == "arg" and r1.base[1] == uniform_arg and not r1.path
+            one_r, one_l = common.const_value_of(v, ra) == 1.0, common.const_value_of(v, la) == 1.0
             # in-range shapes: uniform < one  |  one > uniform ; failing edge = false edge
-            if (u0 and is_one_value(v, r1) and name == "lt") or (u1 and is_one_value(v, r0) and name == "gt"):
+            if (u0 and one_r and name == "lt") or (u1 and one_l and name == "gt"):
                 just.add((bi, fe))
-                desc.append("range check `uniform < one()` at %s (failing edge)" % pat.where(t))
+                desc.append("range check `uniform < one` at %s (failing edge)" % (wh or pat.where(b["term"])))
             # out-of-range shapes: uniform >= one | one <= uniform ; failing edge = true edge
-            elif (u0 and is_one_value(v, r1) and name == "ge") or (u1 and is_one_value(v, r0) and name == "le"):
+            elif (u0 and one_r and name == "ge") or (u1 and one_l and name == "le"):
                 just.add((bi, te))
-                desc.append("range check `uniform >= one()` at %s (true edge)" % pat.where(t))
+                desc.append("range check `uniform >= one` at %s (true edge)" % (wh or pat.where(b["term"])))
         elif c[0] == "discr":
             # Option local set to Some on every iteration path
             pl = c[2]
@@ -215,23 +216,29 @@ def rule_b(ctx, R, sector, scan, uniform_arg):
     edge_ok, edge_desc = False, "no comparison controls the return"
     for (sb, tgt) in cd[rbi]:
         c = v.classify_bool(scan.blocks[sb]["term"]["discr"])
-        if not c or c[0] != "call" or not callee_is(c[1], trait="PartialOrd", name=("lt", "le", "gt", "ge")):
+        cm = common.cmp_of(v, c)
+        if cm is None or cm[0] not in ("lt", "le", "gt", "ge"):
             continue
-        t = c[1]
-        name = t["callee"]["name"]
-        r0, r1 = v.root(t["args"][0]), v.root(t["args"][1])
+        name, la, ra, wh = cm
+        r0, r1 = common.scalar_value_root(v, la), common.scalar_value_root(v, ra)
         te, fe = bool_edges(scan, sb)
         u0 = r0.kind == "arg" and r0.base[1] == uniform_arg and not r0.path
         u1 = r1.kind == "arg" and r1.base[1] == uniform_arg and not r1.path
         other = r1 if u0 else r0
-        # the other side must be the running accumulator: a local updated by add_assign in the loop
-        acc_ok = other.kind == "local" and any(
-            callee_is(tt, trait="AddAssign", name="add_assign") and v.root(tt["args"][0]) == other and bb in loop_blocks
-            for bb, tt in scan.calls())
+        # the other side must be the running accumulator: a local updated additively in the loop
+        acc_ok = False
+        if other.kind == "local":
+            for bb, tt in scan.calls():
+                if callee_is(tt, trait="AddAssign", name="add_assign") and v.root(tt["args"][0]) == other and bb in loop_blocks:
+                    acc_ok = True
+            for bb, si_, st_ in pat.stmts(scan):
+                if bb in loop_blocks and st_["place"]["l"] == other.base[1] and not st_["place"]["p"] and st_["rv"]["k"] == "binop" \
+                        and st_["rv"]["op"] == "Add" and (v.root(st_["rv"]["a"]) == other or v.root(st_["rv"]["b"]) == other):
+                    acc_ok = True
         if not (u0 or u1) or not acc_ok:
             continue
         ge_like = (u1 and name == "ge") or (u0 and name == "le")
-        edge_desc = "%s(%r, %r) at %s, return on %s edge" % (name, r0, r1, pat.where(t), "true" if tgt == te else "false")
+        edge_desc = "%s(%r, %r) at %s, return on %s edge" % (name, r0, r1, wh or pat.where(scan.blocks[sb]["term"]), "true" if tgt == te else "false")
         edge_ok = ge_like and tgt == te
     ctx.ob("C06-b", "return is on the TRUE edge of `cum_sum >= uniform` (%s)" % edge_desc, edge_ok, fn, "scan-ge-direction", where=pat.where(rs),
            detail="the statement says the first edge at which the running sum REACHES u is taken: expected cum_sum >= uniform (or uniform <= cum_sum), true edge; found %s" % edge_desc)
@@ -246,6 +253,51 @@ def rule_b(ctx, R, sector, scan, uniform_arg):
                and v.root(gt["args"][0]).kind == "arg")
     ctx.ob("C06-b", "returned pair is (loop variable, pop_edge(subgraph, loop variable))", pair_ok, fn, "scan-returned-pair", where=pat.where(rs),
            detail="returned (%r, %r), loop variable %r" % (e_root, g_root, loopvar))
+    check_all_returns(ctx, scan, v, nt, rs, loopvar)
+
+
+def check_all_returns(ctx, scan, v, nt, loop_ret_stmt, loopvar):
+    """Every value returned by the scan is the in-loop (edge, rest) pair or the last scanned pair kept for the rounding fallback."""
+    fn = scan.path
+    others = []
+    for bi, si, s in pat.stmts(scan):
+        if s["place"]["l"] != 0 or s["place"]["p"] or s is loop_ret_stmt:
+            continue
+        ok = False
+        why = "returns %s" % s["rv"]["k"]
+        if s["rv"]["k"] == "use" and s["rv"]["op"]["k"] in ("copy", "move"):
+            r = v.root(s["rv"]["op"])
+            why = "returns %r" % (r,)
+            # payload of an Option local that is assigned Some((loopvar, pop_edge(subgraph, loopvar))) in the loop
+            if r.kind == "local" and r.path[:2] == ("as:Some", "0"):
+                ol = r.base[1]
+                somes = []
+                for bj, sj, st in pat.aggregates(scan, pat.OPTION, "Some"):
+                    dst = st["place"]["l"]
+                    feeds = dst == ol or any(s2["place"]["l"] == ol and s2["rv"]["k"] == "use" and s2["rv"]["op"]["k"] in ("copy", "move")
+                                             and s2["rv"]["op"]["place"]["l"] == dst for _b, _i, s2 in pat.stmts(scan))
+                    if feeds:
+                        somes.append(st)
+                good = bool(somes)
+                for st in somes:
+                    pr = v.root(st["rv"]["ops"][0])
+                    rvv = v.rvalue_of(pr) if pr.kind == "local" else None
+                    if rvv is None or rvv["k"] != "aggregate" or rvv["agg"] != "tuple" or len(rvv["ops"]) != 2:
+                        good = False
+                        continue
+                    e_root, g_root = v.root(rvv["ops"][0]), v.root(rvv["ops"][1])
+                    gt = v.call_term(g_root)
+                    if not (e_root == loopvar and gt is not None and gt["callee"].get("name") == "pop_edge" and v.root(gt["args"][1]) == loopvar):
+                        good = False
+                ok = good
+        if not ok:
+            others.append((s, why))
+    for s, why in others:
+        ctx.ob("C06-b", "every return of the scan is the cumulative-scan result", False, fn, "unrecognised-selection-return", where=pat.where(s),
+               detail="the scan has a return path that is neither the in-loop `cum_sum >= uniform` return nor the last-scanned-edge fallback (%s): "
+                      "a second selection procedure whose agreement with the cumulative scan is not decided" % why)
+    if not others:
+        ctx.ob("C06-b", "every return of the scan is the in-loop pair or the last-scanned-pair fallback", True, fn, "unrecognised-selection-return")
 
 
 def check_ascending(ctx, contains):
@@ -275,67 +327,74 @@ def rule_c(ctx, R, sector, scan_site):
     v = Vals(sector)
     read = R.read_fn()
     sbi, st, scan, uidx = scan_site
-    one = [(bi, t) for bi, t in sector.calls() if t.get("callee") and t["callee"].get("name") == "has_one_edge"]
-    if len(one) != 1:
-        return ctx.lost("C06-c", "the has_one_edge test in the sector routine (found %d)" % len(one), fn)
-    obi, ot = one[0]
+    acd = cfg.transitive_control_deps(sector, acyclic=True)
     sw = None
+    ot = None
     for bi, b in enumerate(sector.blocks):
-        if b["term"]["k"] == "switch":
-            c = v.classify_bool(b["term"]["discr"])
-            if c and c[0] == "call" and c[1] is ot:
-                sw = bi
+        if b["term"]["k"] != "switch":
+            continue
+        c = v.classify_bool(b["term"]["discr"])
+        if c and c[0] == "call" and c[1].get("callee", {}).get("name") == "has_one_edge":
+            te_, fe_ = bool_edges(sector, bi)
+            if (bi, fe_) in acd[sbi]:
+                if sw is not None:
+                    return ctx.lost("C06-c", "a single has_one_edge test controlling the scan call", fn)
+                sw, ot = bi, c[1]
     if sw is None:
-        return ctx.lost("C06-c", "branch on has_one_edge", fn)
+        return ctx.lost("C06-c", "the has_one_edge test that controls the scan call", fn)
     te, fe = bool_edges(sector, sw)
-    ipdom = cfg.post_dominators(sector)
-    join = ipdom.get(sw)
+    idom = cfg.dominators(sector)
+    asucc = cfg.acyclic_succs(sector)
+
+    def areach(start):
+        seen, st_ = set(), [start]
+        while st_:
+            x = st_.pop()
+            if x in seen:
+                continue
+            seen.add(x)
+            for y in asucc[x]:
+                if not sector.blocks[y]["cleanup"]:
+                    st_.append(y)
+        return seen
+
     read_sites = [bi for bi, t, cb in R.local_callees(sector) if cb is read]
-    t_region = sector.reachable_from(te, avoid=frozenset([join]) if join is not None and join >= 0 else frozenset())
-    f_region = sector.reachable_from(fe, avoid=frozenset([join]) if join is not None and join >= 0 else frozenset())
-    t_reads = [b for b in read_sites if b in t_region]
-    f_reads = [b for b in read_sites if b in f_region]
-    ctx.ob("C06-c", "single-edge branch consumes no hypercube coordinate", not t_reads, fn, "one-edge-branch-no-read", where=pat.where(ot),
+    # single-edge arm: blocks dominated by the true target (exclusive to that branch)
+    t_arm = set(b for b in range(len(sector.blocks)) if cfg.dominates(idom, te, b)) if len(sector.preds()[te]) == 1 else set()
+    t_reads = [b for b in read_sites if b in t_arm]
+    ctx.ob("C06-c", "single-edge branch consumes no hypercube coordinate", not t_reads and bool(t_arm), fn, "one-edge-branch-no-read", where=pat.where(ot),
            detail="read sites on the single-edge branch: %s" % [pat.where(sector.blocks[b]["term"]) for b in t_reads])
-    feeds = sbi in f_region and len(f_reads) == 1
-    ctx.ob("C06-c", "multi-edge branch performs exactly one read, which is the scan's uniform argument", feeds, fn, "multi-edge-branch-one-read",
-           where=pat.where(st), detail="reads on the multi-edge branch: %d; scan call inside branch: %s" % (len(f_reads), sbi in f_region))
+    # multi-edge branch: reads lying on a path from the false edge to the scan call (same iteration)
+    from_fe = areach(fe)
+    between = [b for b in read_sites if b in from_fe and sbi in areach(b)]
+    ur = v.root(st["args"][uidx])
+    feeds = len(between) == 1 and ur == Root(("call", between[0]))
+    ctx.ob("C06-c", "multi-edge branch performs exactly one read before the scan, and it is the scan's uniform argument", feeds, fn,
+           "multi-edge-branch-one-read", where=pat.where(st), detail="reads between the branch and the scan: %d; scan's uniform root %r" % (len(between), ur))
+    t_region = t_arm
     # removed edge on the single-edge branch: first element of the edge enumeration of the current graph, then pop_edge(graph, edge)
-    pops = [(bi, t) for bi, t in sector.calls() if bi in t_region and t.get("callee") and t["callee"].get("name") == "pop_edge"]
-    ok_pop = False
-    det = "no pop_edge on the single-edge branch"
-    if len(pops) == 1:
-        pbi, pt = pops[0]
-        er = v.root(pt["args"][1])
-        gr = v.root(pt["args"][0])
-        # er must come from Iterator::next(contains_edges(graph)) via unwrap_or_else
-        from .c12 import unwrap_result_chain
-        tt = v.call_term(er)
-        chain = []
-        cur = er
-        for _ in range(5):
-            tt = v.call_term(cur)
-            if tt is None:
-                break
-            chain.append(tt["callee"].get("name"))
-            if tt["callee"].get("name") in ("unwrap_or_else", "unwrap", "expect"):
-                cur = v.root(tt["args"][0])
-                continue
-            if callee_is(tt, trait="Iterator", name="next"):
-                cur = v.root(tt["args"][0])
-                continue
-            break
+    # the edge taken on the single-edge branch is the first enumerated edge of the current graph
+    nexts = [(bi, t) for bi, t in sector.calls() if bi in t_region and callee_is(t, trait="Iterator", name="next")]
+    ok_first = False
+    det = "no `contains_edges(graph).next()` on the single-edge branch"
+    gr_test = v.root(ot["args"][0])
+    for nbi, nt_ in nexts:
+        cur = v.root(nt_["args"][0])
         src_t = v.call_term(cur)
         if src_t is None and cur.kind == "local":
             d = v.single_def(cur.base[1])
             if d and d[0] == "call":
                 src_t = d[2]
-        srcname = src_t["callee"].get("name") if src_t else None
-        same_graph = src_t is not None and v.root(src_t["args"][0]) == gr
-        ok_pop = "next" in chain and srcname == "contains_edges" and same_graph
-        det = "edge root chain %s from %s on %r; pop_edge on %r" % (chain, srcname, v.root(src_t["args"][0]) if src_t else None, gr)
-    ctx.ob("C06-c", "single-edge branch removes the sole (first enumerated) edge of the current graph", ok_pop, fn, "one-edge-branch-removes-sole-edge",
+        if src_t is not None and src_t["callee"].get("name") == "contains_edges" and v.root(src_t["args"][0]) == gr_test:
+            ok_first = True
+            det = "edge = contains_edges(%r).next()" % (gr_test,)
+    ctx.ob("C06-c", "single-edge branch takes the sole (first enumerated) edge of the tested graph", ok_first, fn, "one-edge-branch-removes-sole-edge",
            detail=det)
+    pops = [(bi, t) for bi, t in sector.calls() if bi in t_region and t.get("callee") and t["callee"].get("name") == "pop_edge"]
+    for pbi, pt in pops:
+        gr = v.root(pt["args"][0])
+        ctx.ob("C06-c", "pop_edge on the single-edge branch acts on the tested graph", gr == gr_test, fn, "one-edge-branch-pop-graph",
+               detail="pop_edge on %r, tested graph %r" % (gr, gr_test))
 
 
 def run(ctx):
